@@ -223,8 +223,34 @@ impl Proj {
         list(is.iter().map(|i| self.instr(i)).collect())
     }
 
+    /// Cross-check the keys the program's keyed maps ACTUALLY use (the extern pragma map's iterator and
+    /// the pub `IndexMap` fields expose them) against the independent key of the stored value; every
+    /// disagreement is a `key-mismatch`.
+    pub fn check_map_keys(&mut self, p: &Program) {
+        for (k, pragma) in p.extern_pragma_map.clone() {
+            let real = match k {
+                Some(name) => format!("S:{name}"),
+                None => "N".to_string(),
+            };
+            if self.kind_key(&Instruction::Pragma(pragma)) != ("ext", real) {
+                self.key_mismatches += 1;
+            }
+        }
+        for (k, g) in &p.gate_definitions {
+            if *k != g.name {
+                self.key_mismatches += 1;
+            }
+        }
+        for (k, c) in &p.circuits {
+            if *k != c.name {
+                self.key_mismatches += 1;
+            }
+        }
+    }
+
     /// The observable state of a program: copying listing (as pids) and the used-qubit cache.
     pub fn state(&mut self, p: &Program) -> Sexp {
+        self.check_map_keys(p);
         let l = p.to_instructions();
         let listing = self.pids(&l);
         let used = self.qubit_set(p.get_used_qubits());
@@ -267,6 +293,39 @@ pub const EXTRA_POOL: &[&str] = &[
     "DEFCAL MEASURE 2 addr:\n\tX 11",
     "DEFCAL MEASURE 2 addr:\n\tX 2",
     "DEFCAL MEASURE 2:\n\tFENCE 2 3",
+    // PRAGMA EXTERN in every shape: 0-3 arguments, first argument identifier / integer / none, with and
+    // without data string, one name across arities, different names with equal tails (the key is the
+    // FIRST argument when it is an identifier, else none)
+    "PRAGMA EXTERN foo legacy \"(c : REAL)\"",
+    "PRAGMA EXTERN foo 1 \"INTEGER (x : INTEGER)\"",
+    "PRAGMA EXTERN bar legacy \"(c : REAL)\"",
+    "PRAGMA EXTERN foo legacy",
+    "PRAGMA EXTERN foo a b \"(d : BIT)\"",
+    "PRAGMA EXTERN foo a b",
+    "PRAGMA EXTERN baz 1 2",
+    "PRAGMA EXTERN baz legacy \"(c : REAL)\"",
+    "PRAGMA EXTERN 1",
+    "PRAGMA EXTERN 1 \"INTEGER\"",
+    "PRAGMA EXTERN 1 foo \"(c : REAL)\"",
+    "PRAGMA EXTERN 1 2 3",
+    "PRAGMA EXTERN 2 foo bar \"x\"",
+    // one key, values of different shape, in every other keyed container
+    "DEFGATE FOO(%t):\n\tcos(%t), 0\n\t0, sin(%t)",
+    "DEFGATE FOO AS PERMUTATION:\n\t1, 0",
+    "DEFGATE FOO a AS SEQUENCE:\n\tX a",
+    "DEFGATE FOO(%t) p q AS PAULI-SUM:\n\tZZ(-%t/4) p q\n\tY(%t/4) p",
+    "DEFGATE FOO:\n\t1, 0, 0, 0\n\t0, 1, 0, 0\n\t0, 0, 0, 1\n\t0, 0, 1, 0",
+    "DEFWAVEFORM wf(%a, %b):\n\t%a, %b",
+    "DEFWAVEFORM wf:\n\t1",
+    "DECLARE ro REAL[1]",
+    "DECLARE ro INTEGER",
+    "DECLARE ro BIT[8] SHARING oct OFFSET 1 BIT",
+    "DECLARE ro BIT[8] SHARING oct OFFSET 1 BIT 2 REAL",
+    "DEFFRAME 0 \"rf\":\n\tDIRECTION: \"tx\"\n\tINITIAL-FREQUENCY: 1\n\tHARDWARE-OBJECT: \"h\"\n\tSAMPLE-RATE: 2",
+    "DEFFRAME 0 \"rf\":\n\tCENTER-FREQUENCY: 3",
+    "DEFCIRCUIT BELL:\n\tX 0",
+    "DEFCIRCUIT BELL(%a) q:\n\tRX(%a) q",
+    "DEFCIRCUIT BELL(%a, %b) a b c:\n\tRX(%a) a\n\tRZ(%b) b\n\tCCNOT a b c",
     // calibrations that a sloppy signature comparison could confuse: identical up to modifiers …
     "DEFCAL X 0 1:\n\tX 22",
     "DEFCAL DAGGER X 0 1:\n\tX 23",
@@ -358,6 +417,11 @@ impl Pool {
         let base = Pools::new();
         let mut defs = base.defs;
         let mut body = base.body;
+        let bad: Vec<&&str> = EXTRA_POOL
+            .iter()
+            .filter(|t| !matches!(Program::from_str(t), Ok(p) if p.to_instructions().len() == 1))
+            .collect();
+        assert!(bad.is_empty(), "extra pool entries that are not one parsable instruction: {bad:?}");
         for t in EXTRA_POOL {
             let i = match Program::from_str(t) {
                 Ok(p) if p.to_instructions().len() == 1 => parse_one(t),
